@@ -23,17 +23,8 @@ import (
 	"strings"
 )
 
-// The subcommand dispatches itself, so that main.go needs no change for it
-// (equivalent switch line for main.go: `case "pipeline": err = c04PipelineFacts(os.Args[2], os.Args[3])`).
-func init() {
-	if len(os.Args) >= 4 && os.Args[1] == "pipeline" {
-		if err := c04PipelineFacts(os.Args[2], os.Args[3]); err != nil {
-			fmt.Fprintln(os.Stderr, "extract:", err)
-			os.Exit(1)
-		}
-		os.Exit(0)
-	}
-}
+// registers itself in main.go's command registry
+func init() { commands["pipeline"] = c04PipelineFacts }
 
 func c04Func(f *ast.File, name string) *ast.FuncDecl {
 	for _, d := range f.Decls {
